@@ -25,6 +25,7 @@
   number of leading zeros.
 -/
 import Bnum.Lemmas.Radix
+import Bnum.Lemmas.C10Extra
 namespace Bnum.C10
 open Bnum Bnum.Radix Bnum.Spec.Radix
 
@@ -231,6 +232,80 @@ theorem i_parse_bytes_panic {s n : Nat} (hn : 1 ≤ n) (hs3 : 3 ≤ s) (hs : s <
   intro hr
   rw [i_parse_bytes_spec hn hs3 hs hr.1 hr.2] at h; cases h
 
+/-- `parse_bytes` with an out-of-range radix, exactly: `from_utf8` runs before the radix assertion, so
+    the call panics iff the bytes are well-formed UTF-8 and answers `None` otherwise (every `w`, `n`) -/
+theorem u_parse_bytes_bad_radix (w n : Nat) {r : Nat} (hr : ¬ (2 ≤ r ∧ r ≤ 36)) (buf : List Nat) :
+    UI.parseBytes w n buf r = if Prim.utf8Valid buf then .panic else .ok none := by
+  have hR : inRange r 36 = false := by simpa [inRange] using hr
+  unfold UI.parseBytes UI.fromStrRadix
+  cases Prim.utf8Valid buf <;> simp [hR, Outcome.map]
+example : UI.parseBytes 8 1 [0x31] 37 = .panic ∧ UI.parseBytes 8 1 [0x31, 0xc3] 37 = .ok none ∧
+    UI.parseBytes 8 1 [] 0 = .panic ∧ UI.parseBytes 8 1 [0xff] 1 = .ok none := by decide
+
+theorem i_parse_bytes_bad_radix (w n : Nat) {r : Nat} (hr : ¬ (2 ≤ r ∧ r ≤ 36)) (buf : List Nat) :
+    II.parseBytes w n buf r = if Prim.utf8Valid buf then .panic else .ok none := by
+  have hR : inRange r 36 = false := by simpa [inRange] using hr
+  unfold II.parseBytes II.fromStrRadix
+  cases Prim.utf8Valid buf <;> simp [hR, Outcome.map]
+example : II.parseBytes 8 1 [0x2d, 0x31] 256 = .panic ∧ II.parseBytes 8 1 [0x2d, 0x80] 256 = .ok none := by
+  decide
+
+/-- `parse_bytes` panics exactly for an out-of-range radix on well-formed UTF-8 -/
+theorem u_parse_bytes_panic_iff {w n : Nat} (hn : 1 ≤ n) (hw8 : 8 ≤ w) (hw4 : 4 ∣ w) (r : Nat)
+    (buf : List Nat) :
+    UI.parseBytes w n buf r = .panic ↔ ¬ (2 ≤ r ∧ r ≤ 36) ∧ Prim.utf8Valid buf = true := by
+  constructor
+  · intro h
+    have hr := u_parse_bytes_panic hn hw8 hw4 r buf h
+    refine ⟨hr, ?_⟩
+    rw [u_parse_bytes_bad_radix w n hr] at h
+    cases hu : Prim.utf8Valid buf
+    · rw [hu] at h; cases h
+    · rfl
+  · rintro ⟨hr, hu⟩
+    rw [u_parse_bytes_bad_radix w n hr, hu]; rfl
+example : ¬ (2 ≤ 37 ∧ 37 ≤ 36) ∧ Prim.utf8Valid [0x31, 0xc3, 0xa9] = true ∧
+    UI.parseBytes 8 1 [0x31, 0xc3, 0xa9] 37 = .panic := by decide
+
+theorem i_parse_bytes_panic_iff {s n : Nat} (hn : 1 ≤ n) (hs3 : 3 ≤ s) (hs : s < 32) (r : Nat)
+    (buf : List Nat) :
+    II.parseBytes (2 ^ s) n buf r = .panic ↔ ¬ (2 ≤ r ∧ r ≤ 36) ∧ Prim.utf8Valid buf = true := by
+  constructor
+  · intro h
+    have hr := i_parse_bytes_panic hn hs3 hs r buf h
+    refine ⟨hr, ?_⟩
+    rw [i_parse_bytes_bad_radix _ n hr] at h
+    cases hu : Prim.utf8Valid buf
+    · rw [hu] at h; cases h
+    · rfl
+  · rintro ⟨hr, hu⟩
+    rw [i_parse_bytes_bad_radix _ n hr, hu]; rfl
+example : ¬ (2 ≤ 1 ∧ 1 ≤ 36) ∧ Prim.utf8Valid [0x2d] = true ∧
+    II.parseBytes (2 ^ 3) 1 [0x2d] 1 = .panic := by decide
+
+/-- the UTF-8 validator of the spec side (`Spec.Utf8.valid`: decode each scalar value, require the
+    shortest form, no surrogate, at most U+10FFFF — used by the driver's spec answer) and the model's
+    `Prim.utf8Valid` (Unicode Table 3-7 byte ranges) agree on every byte list -/
+theorem utf8_spec_eq_prim (buf : List Nat) : Spec.Utf8.valid buf = Prim.utf8Valid buf :=
+  utf8_valid_eq buf
+example : Spec.Utf8.valid [0x31, 0xe2, 0x82, 0xac, 0xf0, 0x9f, 0x98, 0x80] = true ∧
+    Spec.Utf8.valid [0xc0, 0xb1] = false ∧ Spec.Utf8.valid [0xed, 0xa0, 0x80] = false ∧
+    Spec.Utf8.valid [0xf4, 0x90, 0x80, 0x80] = false ∧ Spec.Utf8.valid [0xe2, 0x82] = false := by decide
+
+/-- `FromStr::from_str` / `str::parse` never panics (radix 10 is in range) -/
+theorem u_from_str_no_panic {w n : Nat} (hn : 1 ≤ n) (hw8 : 8 ≤ w) (hw4 : 4 ∣ w) (s : List Nat) :
+    UI.fromStr w n s ≠ .panic := by
+  rw [u_from_str_eq]
+  intro h
+  exact (u_from_str_radix_panic_iff hn hw8 hw4 10 s).mp h ⟨by omega, by omega⟩
+theorem i_from_str_no_panic {s n : Nat} (hn : 1 ≤ n) (hs3 : 3 ≤ s) (hs : s < 32) (str : List Nat) :
+    II.fromStr (2 ^ s) n str ≠ .panic := by
+  rw [i_from_str_eq]
+  intro h
+  exact (i_from_str_radix_panic_iff hn hs3 hs 10 str).mp h ⟨by omega, by omega⟩
+example : UI.fromStr 8 1 [0x32, 0x35, 0x36] = .ok (.err .posOverflow) ∧
+    II.fromStr (2 ^ 3) 1 [0x2d, 0x31, 0x32, 0x38] = .ok (.ok [128]) := by decide
+
 /-! ### `from_radix_be` / `from_radix_le` (radix 2..=256, digits are bytes)
     `Spec.Radix.expectDigits r m ds = some v` iff every digit is `< r` and `v = valueOf r ds < m`. -/
 
@@ -315,6 +390,45 @@ theorem i_from_radix_eq (w n : Nat) (buf : List Nat) (r : Nat) :
     II.fromRadixBe w n buf r = UI.fromRadixBe w n buf r ∧
     II.fromRadixLe w n buf r = UI.fromRadixLe w n buf r := ⟨rfl, rfl⟩
 
+/-- `BInt::from_radix_be` in terms of the *signed* value: "the denoted value fits" is the unsigned
+    range `valueOf r buf < 2^BITS`, and the result is that value reinterpreted in two's complement
+    (`wrapS`): a value in `[2^(BITS-1), 2^BITS)` is accepted and comes out negative -/
+theorem i_from_radix_be_some_iff {w n r sh : Nat} (hn : 1 ≤ n) (hwb : w = 8 * 2 ^ sh) (hr : 2 ≤ r)
+    (hr256 : r ≤ 256) (buf : List Nat) (hbuf : ∀ b ∈ buf, b < 256) (x : List Nat) :
+    II.fromRadixBe w n buf r = .ok (some x) ↔
+      (∀ d ∈ buf, d < r) ∧ valueOf r buf < M w n ∧ WF w n x ∧
+        S w x = wrapS (M w n) (valueOf r buf : Int) := by
+  show UI.fromRadixBe w n buf r = .ok (some x) ↔ _
+  rw [from_radix_be_some_iff hn hwb hr hr256 buf hbuf x]
+  constructor
+  · rintro ⟨h1, h2, h3, h4⟩; exact ⟨h1, h2, h3, (U_eq_iff_S_eq_wrapS h3 h2).mp h4⟩
+  · rintro ⟨h1, h2, h3, h4⟩; exact ⟨h1, h2, h3, (U_eq_iff_S_eq_wrapS h3 h2).mpr h4⟩
+example : II.fromRadixBe 8 1 [2, 5, 5] 10 = .ok (some [255]) ∧ S 8 [255] = -1 ∧
+    wrapS (M 8 1) (valueOf 10 [2, 5, 5] : Int) = -1 ∧ II.fromRadixBe 8 1 [2, 5, 6] 10 = .ok none := by
+  decide
+
+theorem i_from_radix_le_some_iff {w n r sh : Nat} (hn : 1 ≤ n) (hwb : w = 8 * 2 ^ sh) (hr : 2 ≤ r)
+    (hr256 : r ≤ 256) (buf : List Nat) (hbuf : ∀ b ∈ buf, b < 256) (x : List Nat) :
+    II.fromRadixLe w n buf r = .ok (some x) ↔
+      (∀ d ∈ buf, d < r) ∧ valueOfLE r buf < M w n ∧ WF w n x ∧
+        S w x = wrapS (M w n) (valueOfLE r buf : Int) := by
+  show UI.fromRadixLe w n buf r = .ok (some x) ↔ _
+  rw [from_radix_le_some_iff hn hwb hr hr256 buf hbuf x]
+  constructor
+  · rintro ⟨h1, h2, h3, h4⟩; exact ⟨h1, h2, h3, (U_eq_iff_S_eq_wrapS h3 h2).mp h4⟩
+  · rintro ⟨h1, h2, h3, h4⟩; exact ⟨h1, h2, h3, (U_eq_iff_S_eq_wrapS h3 h2).mpr h4⟩
+example : II.fromRadixLe 8 1 [8, 2, 1] 10 = .ok (some [128]) ∧ S 8 [128] = -128 ∧
+    wrapS (M 8 1) (valueOfLE 10 [8, 2, 1] : Int) = -128 := by decide
+
+/-- the signed digit-slice constructors, too, panic exactly for an out-of-range radix -/
+theorem i_from_radix_panic_iff {w n sh : Nat} (hn : 1 ≤ n) (hwb : w = 8 * 2 ^ sh) (r : Nat)
+    (buf : List Nat) (hbuf : ∀ b ∈ buf, b < 256) :
+    (II.fromRadixBe w n buf r = .panic ↔ ¬ (2 ≤ r ∧ r ≤ 256)) ∧
+    (II.fromRadixLe w n buf r = .panic ↔ ¬ (2 ≤ r ∧ r ≤ 256)) :=
+  ⟨from_radix_be_panic_iff hn hwb r buf hbuf, from_radix_le_panic_iff hn hwb r buf hbuf⟩
+example : II.fromRadixBe 8 1 [] 257 = .panic ∧ II.fromRadixLe 8 1 [] 1 = .panic ∧
+    II.fromRadixLe 8 1 [] 256 = .ok (some [0]) := by decide
+
 /-! `parse_str_radix` (the panicking `const` twin, outside the property's list but part of the same
     API): it returns `x` exactly when `from_str_radix` returns `Ok(x)` and panics in every other
     case, so with the theorems above it accepts exactly the representable numerals. -/
@@ -335,5 +449,20 @@ theorem i_parse_str_radix_iff (w n : Nat) (s : List Nat) (r : Nat) (x : List Nat
   | ok p => cases p <;> simp
 example : II.parseStrRadix (2 ^ 3) 1 [0x2d, 0x31, 0x32, 0x38] 10 = .ok [128]
     ∧ II.parseStrRadix (2 ^ 3) 1 [0x31, 0x32, 0x38] 10 = .panic := by decide
+
+/-- `parse_str_radix` panics exactly when `from_str_radix` panics or returns `Err` -/
+theorem u_parse_str_radix_panic_iff (w n : Nat) (s : List Nat) (r : Nat) :
+    UI.parseStrRadix w n s r = .panic ↔ ∀ x, UI.fromStrRadix w n s r ≠ .ok (.ok x) := by
+  unfold UI.parseStrRadix
+  cases h : UI.fromStrRadix w n s r with
+  | panic => simp
+  | ok p => cases p <;> simp
+theorem i_parse_str_radix_panic_iff (w n : Nat) (s : List Nat) (r : Nat) :
+    II.parseStrRadix w n s r = .panic ↔ ∀ x, II.fromStrRadix w n s r ≠ .ok (.ok x) := by
+  unfold II.parseStrRadix
+  cases h : II.fromStrRadix w n s r with
+  | panic => simp
+  | ok p => cases p <;> simp
+example : UI.parseStrRadix 8 1 [0x31] 37 = .panic ∧ II.parseStrRadix (2 ^ 3) 1 [] 10 = .panic := by decide
 
 end Bnum.C10
